@@ -8,6 +8,11 @@
 (*   BooleansAsExpected           IsVariadic, ReturnsError, HasParams,     *)
 (*                                HasReturns, AcceptsContext,              *)
 (*                                ReturnStatement, arities = DataModel.tla *)
+(*   ParamAccessors               Variadic, TypeStringEllipsis,            *)
+(*                                TypeStringVariadicUnderlying, MethodArg, *)
+(*                                CallName, Nillable of every parameter    *)
+(*                                AND every result (a result is never      *)
+(*                                variadic)                                *)
 (*   NamesDistinctValidUncaptured names offered for one signature are      *)
 (*                                valid identifiers, pairwise distinct,    *)
 (*                                and none equals a qualifier or type      *)
@@ -34,12 +39,25 @@ NamesOK(names, valid, used) ==
   /\ \A i, j \in 1..Len(names) : i # j => names[i] # names[j]
   /\ \A i \in 1..Len(names) : names[i] \notin ToSet(used)
 
+\* the string accessors of one Param (v: what the probe dumped, e: DataModel.tla ExpParam / ExpResult)
+\*   Variadic; TypeStringEllipsis; TypeStringVariadicUnderlying; MethodArg; CallName true; Nillable
+VarOK(v, e) ==
+  /\ v.variadic = e.variadic
+  /\ e.nillable = "any" \/ v.nillable = (e.nillable = "true")
+  /\ IF e.variadic
+     THEN /\ Len(v.type) > 2 /\ SubSeq(v.type, 1, 2) = "[]"
+          /\ LET el == SubSeq(v.type, 3, Len(v.type)) IN
+             v.under = el /\ v.ellipsis = "..." \o el /\ v.arg = v.name \o " ..." \o el /\ v.call = v.name \o "..."
+     ELSE v.ellipsis = v.type /\ v.under = v.type /\ v.arg = v.name \o " " \o v.type /\ v.call = v.name
+VarsOK(vs, es) == Len(vs) = Len(es) /\ \A i \in 1..Len(vs) : VarOK(vs[i], es[i])
+
 \* guards: when does the contract accept the next recorded event?
 CanReset  == At("reset")
 CanBegin  == At("begin") /\ ~open /\ Ev.ntparams = Ev.exp_ntparams                    \* TypeParamsReproduced
 CanMethod == /\ At("method") /\ open
              /\ Ev.name \in expected /\ Ev.name \notin seen                           \* EachMethodOnce
              /\ Ev.rep = Ev.exp                                                       \* BooleansAsExpected
+             /\ VarsOK(Ev.params, Ev.exp_params) /\ VarsOK(Ev.results, Ev.exp_results) \* every Param accessor, params AND results
              /\ NamesOK(Ev.names, Ev.valid, Ev.used)                                  \* NamesDistinctValidUncaptured
 CanEnd    == At("end") /\ open /\ seen = expected                                     \* nothing dropped
 
